@@ -318,6 +318,14 @@ func startMuts(m *robustMaterial, fn string) []startMut {
 			delete(s.RBar.Points, m.ids[0])
 			delete(s.S.Points, m.ids[0])
 		})
+		// the R-bar table lost a signer that the S table still names (tables of different sizes; the signers left over
+		// would still be enough to sign)
+		pm("RBar-lost-signer", func(s *ecdsa.PreSignature) {
+			s.S.Points[m.ids[2]] = s.S.Points[m.ids[1]]
+		})
+		pm("S-lost-signer", func(s *ecdsa.PreSignature) {
+			s.RBar.Points[m.ids[2]] = s.RBar.Points[m.ids[1]]
+		})
 		pm("only-self", func(s *ecdsa.PreSignature) {
 			delete(s.RBar.Points, m.ids[1])
 			delete(s.S.Points, m.ids[1])
